@@ -97,8 +97,12 @@ structure RunFn where
 /-- The collector's filter applied to one message. -/
 def collect (best : Rat) (x : Rat) : Rat := if x ≥ best then best else x
 
-/-- One cycle with ONE worker, in the two orders the barrier allows: the collector has processed
-the previous cycle's last message before the worker copies the shared best (`true`), or not. -/
+/-- Two runs sharing one best solution, the second starting while the first still has its LAST
+result to hand over: the second copies the shared best either after the collector has processed
+that result (`true`) or before (`false`). Within one cycle with two or more parallel runs both
+orders are possible (a run starts whenever the scheduler lets it). ACROSS cycles, and between
+consecutive runs with one parallel run, only `true` is possible since every hand-over is
+acknowledged after the collector has processed it (repair recorded as `fixed: property=C13`). -/
 def twoCycles (f : RunFn) (start : Rat) (grant : Nat) (collectorFirst : Bool) : Rat :=
   let r1 := f.run start grant
   let best1 := r1.foldl collect start
